@@ -18,9 +18,12 @@ from .srcdb import Module, ClassInfo, FuncInfo, External
 class Opaque(object):
     """A value only known at run time."""
     __slots__ = ('why',)
+    made = 0        # how many were created (a try body is folded only when
+                    # nothing in it depended on run-time data)
 
     def __init__(self, why=''):
         self.why = why
+        Opaque.made += 1
 
     def __repr__(self):
         return 'Opaque(%s)' % self.why
@@ -342,14 +345,22 @@ class Folder(object):
         if found:
             return v
         cs = env.cls
+        busy = self.__dict__.setdefault('_binding', set())
         while cs is not None:
-            if name in cs.attrs:
+            # (a name used in its own class-level definition, `X = X`, is
+            # not bound in the class yet: it is the global)
+            if name in cs.attrs and (id(cs), name) not in busy:
                 return self.class_attr(ClassVal(cs), name, node, env.module,
                                        own=cs)
             cs = cs.outer
         return self.module_global(env.module, name, node)
 
     # -- expressions -----------------------------------------------------
+    def e_NamedExpr(self, n, env):
+        v = self.eval(n.value, env)
+        self.assign(n.target, v, env)
+        return v
+
     def eval(self, n, env):
         self.steps += 1
         meth = getattr(self, 'e_' + type(n).__name__, None)
@@ -397,7 +408,34 @@ class Folder(object):
         return d
 
     def e_JoinedStr(self, n, env):
-        return Opaque('fstring')
+        """an f-string over folded strings / integers / None is its text"""
+        out = []
+        for part in n.values:
+            if isinstance(part, ast.Constant):
+                out.append(str(part.value))
+                continue
+            if not isinstance(part, ast.FormattedValue):
+                return Opaque('fstring')
+            v = self.eval(part.value, env)
+            if isinstance(v, Opaque) or not (
+                    v is None or type(v) in (str, int, bool, float)):
+                return Opaque('fstring')
+            spec = ''
+            if part.format_spec is not None:
+                spec = self.e_JoinedStr(part.format_spec, env)
+                if isinstance(spec, Opaque):
+                    return spec
+            if part.conversion == ord('r'):
+                v = repr(v)
+            elif part.conversion == ord('s'):
+                v = str(v)
+            elif part.conversion == ord('a'):
+                v = ascii(v)
+            try:
+                out.append(format(v, spec))
+            except (ValueError, TypeError) as e:
+                raise FoldRaise(type(e).__name__, e.args, n)
+        return ''.join(out)
 
     def e_Lambda(self, n, env):
         return LambdaVal(n, env, env.module)
@@ -654,7 +692,15 @@ class Folder(object):
         key = id(ad)
         if key in self.attr_cache:
             return self.attr_cache[key]
-        v = self.eval(ad.value, Env(ad.owner.module, cls=ad.owner))
+        busy = self.__dict__.setdefault('_binding', set())
+        mark = (id(ad.owner), ad.name)
+        fresh = mark not in busy
+        busy.add(mark)
+        try:
+            v = self.eval(ad.value, Env(ad.owner.module, cls=ad.owner))
+        finally:
+            if fresh:
+                busy.discard(mark)
         self.attr_cache[key] = v
         return v
 
@@ -1183,12 +1229,74 @@ class Folder(object):
             return
         if isinstance(st, ast.Assert):
             return
+        if isinstance(st, ast.Try):
+            return self.exec_try(st, env, fi)
         if isinstance(st, ast.Global):
             for nm in st.names:
                 env.vars[('global', nm)] = True
             return
         raise self.err('unsupported statement %s in folded code'
                        % type(st).__name__, st, env.module)
+
+    BUILTIN_EXC_BASES = {
+        'KeyError': ('LookupError',), 'IndexError': ('LookupError',),
+        'NotImplementedError': ('RuntimeError',),
+        'IOError': ('OSError', 'EnvironmentError'),
+        'OSError': ('IOError', 'EnvironmentError'),
+        'UnicodeDecodeError': ('UnicodeError', 'ValueError'),
+        'ZeroDivisionError': ('ArithmeticError',),
+        'OverflowError': ('ArithmeticError',)}
+
+    def handler_matches(self, h, r, env):
+        if h.type is None:
+            return True
+        names = []
+        for t in (h.type.elts if isinstance(h.type, ast.Tuple)
+                  else [h.type]):
+            if isinstance(t, ast.Name):
+                names.append(t.id)
+            elif isinstance(t, ast.Attribute):
+                names.append(t.attr)
+            else:
+                raise self.err('computed exception class in a handler of '
+                               'folded code', h, env.module)
+        have = {r.exc_type, 'Exception', 'BaseException'}
+        have.update(self.BUILTIN_EXC_BASES.get(r.exc_type, ()))
+        for ci in self.db.classes:
+            if ci.name == r.exc_type:
+                for b in self.db.mro(ci) if hasattr(self.db, 'mro') else []:
+                    have.add(b.name)
+                    for bn in b.node.bases:
+                        if isinstance(bn, ast.Name):
+                            have.add(bn.id)
+                            have.update(self.BUILTIN_EXC_BASES.get(bn.id, ()))
+        return any(nm in have for nm in names)
+
+    def exec_try(self, st, env, fi):
+        """try/except/else/finally over folded code.  Which handler runs is
+        decided from the exception the folded body raises; a body that
+        touches run-time data could raise what the fold cannot see, so that
+        is not folded."""
+        try:
+            made = Opaque.made
+            try:
+                self.exec_block(st.body, env, fi)
+            except FoldRaise as r:
+                for h in st.handlers:
+                    if self.handler_matches(h, r, env):
+                        if h.name:
+                            env.vars[h.name] = Opaque('caught exception')
+                        self.exec_block(h.body, env, fi)
+                        break
+                else:
+                    raise
+            else:
+                if st.handlers and Opaque.made != made:
+                    raise self.err('try body over run-time data in folded '
+                                   'code', st, env.module)
+                self.exec_block(st.orelse, env, fi)
+        finally:
+            self.exec_block(st.finalbody, env, fi)
 
     def assign(self, t, v, env):
         if isinstance(t, ast.Name):
